@@ -104,6 +104,13 @@ def oneUnsew2 (cfg : Cfg X) (n l : Nat) : P X Unit := do
   splitS cfg 0 nl nr vold
   splitAttrs cfg 0 nl nr vold
 
+/-- the orientation test of `two_sew` on the four old vertex slots: skipped unless all four
+    coordinates are defined -/
+def badPair (cfg : Cfg X) (pl pb1r pb1l pr : Option X) : Bool :=
+  match pl, pb1r, pb1l, pr with
+  | some a, some b, some c, some d => cfg.badOrient a b c d
+  | _, _, _, _ => false
+
 /-- `two_sew` (2-D) -/
 def twoSew2 (cfg : Cfg X) (n l r : Nat) : P X Unit := do
   let b1l ← rB 1 l
@@ -139,10 +146,7 @@ def twoSew2 (cfg : Cfg X) (n l r : Nat) : P X Unit := do
     let pb1r ← rA 0 b1rv
     let pb1l ← rA 0 b1lv
     let pr ← rA 0 rv
-    let bad := match pl, pb1r, pb1l, pr with
-      | some a, some b, some c, some d => cfg.badOrient a b c d
-      | _, _, _, _ => false
-    if bad then abort (errBadGeometry 2 l r) else
+    if badPair cfg pl pb1r pb1l pr then abort (errBadGeometry 2 l r) else
     iLinkCore 2 l r
     let lvn ← vertexId2 n l
     let rvn ← vertexId2 n r
